@@ -11,6 +11,7 @@ import (
 	"github.com/antonmedv/expr/parser"
 	"github.com/antonmedv/expr/vm"
 
+	"verif/mc/ref"
 	"verif/mc/report"
 )
 
@@ -18,278 +19,13 @@ import (
 // 12x12 ordered kind pairs x operators x a boundary grid per kind, on the real
 // Compile/Run, against an independent arithmetic model.
 
-var c14Kinds = []reflect.Kind{reflect.Uint, reflect.Uint8, reflect.Uint16, reflect.Uint32, reflect.Uint64,
-	reflect.Int, reflect.Int8, reflect.Int16, reflect.Int32, reflect.Int64, reflect.Float32, reflect.Float64}
-
-func c14Rank(k reflect.Kind) int {
-	for i, kk := range c14Kinds {
-		if kk == k {
-			return i
-		}
-	}
-	return -1
-}
-
-// num is the model's number: a kind plus either integer bits (two's complement,
-// extended to 64 bits according to the kind's signedness) or a float.
-type num struct {
-	k reflect.Kind
-	u uint64  // integer kinds
-	f float64 // float kinds (float32 values are exactly representable)
-}
-
-func kindBits(k reflect.Kind) uint {
-	switch k {
-	case reflect.Int8, reflect.Uint8:
-		return 8
-	case reflect.Int16, reflect.Uint16:
-		return 16
-	case reflect.Int32, reflect.Uint32, reflect.Float32:
-		return 32
-	}
-	return 64
-}
-func kindSigned(k reflect.Kind) bool {
-	switch k {
-	case reflect.Int, reflect.Int8, reflect.Int16, reflect.Int32, reflect.Int64:
-		return true
-	}
-	return false
-}
-func kindFloat(k reflect.Kind) bool { return k == reflect.Float32 || k == reflect.Float64 }
-
-// wrap truncates bits to the width of k and re-extends.
-func wrap(k reflect.Kind, bits uint64) uint64 {
-	w := kindBits(k)
-	if w == 64 {
-		return bits
-	}
-	bits &= (1 << w) - 1
-	if kindSigned(k) && bits&(1<<(w-1)) != 0 {
-		bits |= ^uint64(0) << w
-	}
-	return bits
-}
-
-func (n num) conv(k reflect.Kind) num {
-	if n.k == k {
-		return n
-	}
-	if kindFloat(k) {
-		var f float64
-		if kindFloat(n.k) {
-			f = n.f
-		} else if kindSigned(n.k) {
-			if k == reflect.Float32 {
-				f = float64(float32(int64(n.u)))
-			} else {
-				f = float64(int64(n.u))
-			}
-		} else {
-			if k == reflect.Float32 {
-				f = float64(float32(n.u))
-			} else {
-				f = float64(n.u)
-			}
-		}
-		if k == reflect.Float32 {
-			f = float64(float32(f))
-		}
-		return num{k: k, f: f}
-	}
-	if kindFloat(n.k) {
-		panic("model: float to integer conversion is never needed by the promotion rule")
-	}
-	return num{k: k, u: wrap(k, n.u)}
-}
-
-func (n num) toFloat64() float64 {
-	if kindFloat(n.k) {
-		return n.f
-	}
-	if kindSigned(n.k) {
-		return float64(int64(n.u))
-	}
-	return float64(n.u)
-}
-
-func (n num) goValue() interface{} {
-	switch n.k {
-	case reflect.Uint:
-		return uint(n.u)
-	case reflect.Uint8:
-		return uint8(n.u)
-	case reflect.Uint16:
-		return uint16(n.u)
-	case reflect.Uint32:
-		return uint32(n.u)
-	case reflect.Uint64:
-		return uint64(n.u)
-	case reflect.Int:
-		return int(n.u)
-	case reflect.Int8:
-		return int8(n.u)
-	case reflect.Int16:
-		return int16(n.u)
-	case reflect.Int32:
-		return int32(n.u)
-	case reflect.Int64:
-		return int64(n.u)
-	case reflect.Float32:
-		return float32(n.f)
-	case reflect.Float64:
-		return n.f
-	}
-	panic("kind")
-}
-
-func fromGo(v interface{}) (num, bool) {
-	rv := reflect.ValueOf(v)
-	switch rv.Kind() {
-	case reflect.Uint, reflect.Uint8, reflect.Uint16, reflect.Uint32, reflect.Uint64:
-		return num{k: rv.Kind(), u: rv.Uint()}, true
-	case reflect.Int, reflect.Int8, reflect.Int16, reflect.Int32, reflect.Int64:
-		return num{k: rv.Kind(), u: uint64(rv.Int())}, true
-	case reflect.Float32, reflect.Float64:
-		return num{k: rv.Kind(), f: rv.Float()}, true
-	}
-	return num{}, false
-}
-
-func (n num) String() string {
-	if kindFloat(n.k) {
-		return fmt.Sprintf("%s(%v)", n.k, n.f)
-	}
-	if kindSigned(n.k) {
-		return fmt.Sprintf("%s(%d)", n.k, int64(n.u))
-	}
-	return fmt.Sprintf("%s(%d)", n.k, n.u)
-}
-
-func numEq(a, b num) bool {
-	if a.k != b.k {
-		return false
-	}
-	if kindFloat(a.k) {
-		return math.Float64bits(a.f) == math.Float64bits(b.f) || (math.IsNaN(a.f) && math.IsNaN(b.f))
-	}
-	return a.u == b.u
-}
-
-// c14Model returns the expected result: either a number, a bool, or failure.
-type c14Out struct {
-	fail   bool
-	isBool bool
-	b      bool
-	n      num
-}
-
-func (o c14Out) String() string {
-	if o.fail {
-		return "fail"
-	}
-	if o.isBool {
-		return fmt.Sprint(o.b)
-	}
-	return o.n.String()
-}
-
-func c14Model(op string, a, b num) c14Out {
-	if op == "**" {
-		return c14Out{n: num{k: reflect.Float64, f: math.Pow(a.toFloat64(), b.toFloat64())}}
-	}
-	k := a.k
-	if c14Rank(b.k) > c14Rank(a.k) {
-		k = b.k
-	}
-	x, y := a.conv(k), b.conv(k)
-	if kindFloat(k) {
-		var f float64
-		switch op {
-		case "+":
-			f = x.f + y.f
-		case "-":
-			f = x.f - y.f
-		case "*":
-			f = x.f * y.f
-		case "/":
-			f = x.f / y.f
-		case "%":
-			return c14Out{fail: true}
-		case "==":
-			return c14Out{isBool: true, b: x.f == y.f}
-		case "!=":
-			return c14Out{isBool: true, b: x.f != y.f}
-		case "<":
-			return c14Out{isBool: true, b: x.f < y.f}
-		case "<=":
-			return c14Out{isBool: true, b: x.f <= y.f}
-		case ">":
-			return c14Out{isBool: true, b: x.f > y.f}
-		case ">=":
-			return c14Out{isBool: true, b: x.f >= y.f}
-		}
-		if k == reflect.Float32 {
-			f = float64(float32(f))
-		}
-		return c14Out{n: num{k: k, f: f}}
-	}
-	signed := kindSigned(k)
-	less := func() bool {
-		if signed {
-			return int64(x.u) < int64(y.u)
-		}
-		return x.u < y.u
-	}
-	switch op {
-	case "+":
-		return c14Out{n: num{k: k, u: wrap(k, x.u+y.u)}}
-	case "-":
-		return c14Out{n: num{k: k, u: wrap(k, x.u-y.u)}}
-	case "*":
-		return c14Out{n: num{k: k, u: wrap(k, x.u*y.u)}}
-	case "/", "%":
-		if y.u == 0 {
-			return c14Out{fail: true}
-		}
-		var q, r uint64
-		if signed {
-			xi, yi := int64(x.u), int64(y.u)
-			if yi == -1 { // avoid the hardware trap; Go defines min / -1 == min, min % -1 == 0
-				q, r = uint64(-xi), 0
-			} else {
-				q, r = uint64(xi/yi), uint64(xi%yi)
-			}
-		} else {
-			q, r = x.u/y.u, x.u%y.u
-		}
-		if op == "/" {
-			return c14Out{n: num{k: k, u: wrap(k, q)}}
-		}
-		return c14Out{n: num{k: k, u: wrap(k, r)}}
-	case "==":
-		return c14Out{isBool: true, b: x.u == y.u}
-	case "!=":
-		return c14Out{isBool: true, b: x.u != y.u}
-	case "<":
-		return c14Out{isBool: true, b: less()}
-	case "<=":
-		return c14Out{isBool: true, b: less() || x.u == y.u}
-	case ">":
-		return c14Out{isBool: true, b: !less() && x.u != y.u}
-	case ">=":
-		return c14Out{isBool: true, b: !less()}
-	}
-	panic("op " + op)
-}
-
-func c14Grid(k reflect.Kind) []num {
-	if kindFloat(k) {
+func c14Grid(k reflect.Kind) []ref.Num {
+	if ref.KindFloat(k) {
 		fs := []float64{0, 1, -1, 1.5, -2.5, 16777217, 1e10, math.MaxFloat32, math.SmallestNonzeroFloat32, -0.0}
 		if k == reflect.Float64 {
 			fs = append(fs, math.MaxFloat64, math.SmallestNonzeroFloat64, 9007199254740993, 0.1)
 		}
-		var out []num
+		var out []ref.Num
 		seen := map[uint64]bool{}
 		for _, f := range fs {
 			if k == reflect.Float32 {
@@ -299,27 +35,27 @@ func c14Grid(k reflect.Kind) []num {
 				continue
 			}
 			seen[math.Float64bits(f)] = true
-			out = append(out, num{k: k, f: f})
+			out = append(out, ref.Num{K: k, F: f})
 		}
 		return out
 	}
-	w := kindBits(k)
+	w := ref.KindBits(k)
 	var raw []uint64
-	if kindSigned(k) {
+	if ref.KindSigned(k) {
 		min := uint64(1) << (w - 1)
 		raw = []uint64{0, 1, ^uint64(0), min, min - 1, 0x123456789ABCDEF1, 0xFEDCBA9876543281, 3, ^uint64(0) - 6, 200, 70000}
 	} else {
 		raw = []uint64{0, 1, ^uint64(0), ^uint64(0) - 1, uint64(1) << (w - 1), 0x123456789ABCDEF1, 0xFEDCBA9876543281, 3, 7, 200, 70000}
 	}
-	var out []num
+	var out []ref.Num
 	seen := map[uint64]bool{}
 	for _, b := range raw {
-		b = wrap(k, b)
+		b = ref.Wrap(k, b)
 		if seen[b] {
 			continue
 		}
 		seen[b] = true
-		out = append(out, num{k: k, u: b})
+		out = append(out, ref.Num{K: k, U: b})
 	}
 	return out
 }
@@ -331,41 +67,41 @@ func c14(r *report.Run) {
 	var evals, progs int64
 	outcomes := map[string]bool{}
 	order := int64(0)
-	check := func(mode, src string, prog *vm.Program, env interface{}, want c14Out, predicted reflect.Type, sigWitness, valDesc string) {
+	check := func(mode, src string, prog *vm.Program, env interface{}, want ref.Out, predicted reflect.Type, sigWitness, valDesc string) {
 		order++
 		out, err := vm.Run(prog, env)
 		evals++
-		got := c14Out{}
+		got := ref.Out{}
 		if err != nil {
-			got.fail = true
+			got.Fail = true
 		} else if b, ok := out.(bool); ok {
-			got.isBool, got.b = true, b
-		} else if n, ok := fromGo(out); ok {
-			got.n = n
+			got.IsBool, got.B = true, b
+		} else if n, ok := ref.FromGo(out); ok {
+			got.N = n
 		} else {
-			got.fail = true
+			got.Fail = true
 		}
 		outcomes[got.String()] = true
 		bad := ""
 		switch {
-		case got.fail != want.fail:
+		case got.Fail != want.Fail:
 			bad = "failure"
-		case got.fail:
-		case got.isBool != want.isBool:
+		case got.Fail:
+		case got.IsBool != want.IsBool:
 			bad = "kind"
-		case got.isBool:
-			if got.b != want.b {
+		case got.IsBool:
+			if got.B != want.B {
 				bad = "value"
 			}
-		case got.n.k != want.n.k:
+		case got.N.K != want.N.K:
 			bad = "kind"
-		case !numEq(got.n, want.n):
+		case !ref.NumEq(got.N, want.N):
 			bad = "value"
 		}
-		if bad == "" && !got.fail && predicted != nil && predicted.Kind() != reflect.Interface {
+		if bad == "" && !got.Fail && predicted != nil && predicted.Kind() != reflect.Interface {
 			gk := reflect.Bool
-			if !got.isBool {
-				gk = got.n.k
+			if !got.IsBool {
+				gk = got.N.K
 			}
 			if predicted.Kind() != gk {
 				bad = "checker-kind"
@@ -376,11 +112,11 @@ func c14(r *report.Run) {
 				Detail: map[string]interface{}{"source": src, "values": valDesc, "expected": want.String(), "observed": got.String(), "checker_type": fmt.Sprint(predicted)}})
 		}
 	}
-	for _, ka := range c14Kinds {
+	for _, ka := range ref.Kinds {
 		ga := c14Grid(ka)
 		// unary minus
 		{
-			sample := map[string]interface{}{"a": ga[0].goValue()}
+			sample := map[string]interface{}{"a": ga[0].GoValue()}
 			for _, mode := range []string{"typed", "untyped"} {
 				var prog *vm.Program
 				var err error
@@ -399,19 +135,19 @@ func c14(r *report.Run) {
 					continue
 				}
 				for _, a := range ga {
-					var want c14Out
-					if kindFloat(ka) {
-						want = c14Out{n: num{k: ka, f: -a.f}}
+					var want ref.Out
+					if ref.KindFloat(ka) {
+						want = ref.Out{N: ref.Num{K: ka, F: -a.F}}
 					} else {
-						want = c14Out{n: num{k: ka, u: wrap(ka, -a.u)}}
+						want = ref.Out{N: ref.Num{K: ka, U: ref.Wrap(ka, -a.U)}}
 					}
-					check(mode, "-a", prog, map[string]interface{}{"a": a.goValue()}, want, pt, fmt.Sprintf("-%s", ka), a.String())
+					check(mode, "-a", prog, map[string]interface{}{"a": a.GoValue()}, want, pt, fmt.Sprintf("-%s", ka), a.String())
 				}
 			}
 		}
-		for _, kb := range c14Kinds {
+		for _, kb := range ref.Kinds {
 			gb := c14Grid(kb)
-			sample := map[string]interface{}{"a": ga[0].goValue(), "b": gb[0].goValue()}
+			sample := map[string]interface{}{"a": ga[0].GoValue(), "b": gb[0].GoValue()}
 			cfg := conf.New(sample)
 			for _, op := range ops {
 				src := "a " + op + " b"
@@ -430,7 +166,7 @@ func c14(r *report.Run) {
 						prog, err = expr.Compile(src)
 					}
 					progs++
-					illTyped := op == "%" && (kindFloat(ka) || kindFloat(kb))
+					illTyped := op == "%" && (ref.KindFloat(ka) || ref.KindFloat(kb))
 					if err != nil {
 						if !(mode == "typed" && illTyped) {
 							order++
@@ -445,19 +181,19 @@ func c14(r *report.Run) {
 					}
 					for _, a := range ga {
 						for _, b := range gb {
-							want := c14Model(op, a, b)
-							check(mode, src, prog, map[string]interface{}{"a": a.goValue(), "b": b.goValue()}, want, pt, wit, a.String()+", "+b.String())
+							want := ref.Arith(op, a, b)
+							check(mode, src, prog, map[string]interface{}{"a": a.GoValue(), "b": b.GoValue()}, want, pt, wit, a.String()+", "+b.String())
 						}
 					}
 				}
 			}
 			if len(r.Cov) == 0 && ka == reflect.Uint8 && kb == reflect.Int16 {
-				r.Sample(map[string]interface{}{"source": "a + b", "a": ga[4].String(), "b": gb[3].String(), "expected": c14Model("+", ga[4], gb[3]).String()})
+				r.Sample(map[string]interface{}{"source": "a + b", "a": ga[4].String(), "b": gb[3].String(), "expected": ref.Arith("+", ga[4], gb[3]).String()})
 			}
 		}
 	}
-	r.Sample(map[string]interface{}{"source": "a / b", "a": "int8(-128)", "b": "uint16(65535)", "expected": c14Model("/", num{k: reflect.Int8, u: wrap(reflect.Int8, 0x80)}, num{k: reflect.Uint16, u: 65535}).String()})
-	r.Sample(map[string]interface{}{"source": "a < b", "a": "uint8(200)", "b": "int8(-1)", "expected": c14Model("<", num{k: reflect.Uint8, u: 200}, num{k: reflect.Int8, u: wrap(reflect.Int8, 0xff)}).String()})
+	r.Sample(map[string]interface{}{"source": "a / b", "a": "int8(-128)", "b": "uint16(65535)", "expected": ref.Arith("/", ref.Num{K: reflect.Int8, U: ref.Wrap(reflect.Int8, 0x80)}, ref.Num{K: reflect.Uint16, U: 65535}).String()})
+	r.Sample(map[string]interface{}{"source": "a < b", "a": "uint8(200)", "b": "int8(-1)", "expected": ref.Arith("<", ref.Num{K: reflect.Uint8, U: 200}, ref.Num{K: reflect.Int8, U: ref.Wrap(reflect.Int8, 0xff)}).String()})
 	r.Set("evaluations", evals)
 	r.Set("programs", progs)
 	r.Set("distinct_nontrivial", int64(len(outcomes)))
